@@ -19,7 +19,7 @@ from ..vloop import Horizon
 
 LEVEL = "model_checking"
 RULE = (
-    "LOOP machines = cycle kind {always<->always, action raising its own trigger, onDone re-completing its own state, "
+    "LOOP machines = cycle kind {always<->always, action raising its own trigger (a fresh event, or the very event object being handled), onDone re-completing its own state, "
     "done.invoke of an instantly returning service re-entering its state, self-enqueueing pure / choose / "
     "enqueueActions} x maxIterations M x natural length L in {M-1, M, M+1, inf} x trigger {start(), event} x engine; "
     "REPEAT machines = M+2 finite chains of M-1 self-raised events each in ONE interpreter, started through send / send_events / a mix / a re-arming after-timer (none may be cut: the bound is per macrostep); "
@@ -36,7 +36,7 @@ ASSUMPTIONS = [
     "termination = returns before 60*M recorder entries / 20000 loop iterations; a SIGALRM backstop names the machine",
 ]
 ENGINES = ("sync", "async")
-KINDS = ("always", "raise", "ondone", "invoke", "pure", "choose", "enqueue", "mixed_raise", "mixed_done", "mixed_sendto")
+KINDS = ("always", "raise", "raise_same", "ondone", "invoke", "pure", "choose", "enqueue", "mixed_raise", "mixed_done", "mixed_sendto")
 INF = 10 ** 9
 
 
@@ -72,6 +72,14 @@ def make(kind: str, M: int, L: int, trigger: str) -> Dict[str, Any]:
             "entry": [A.raise_("LOOP")],
             "states": {"a": {}},
             "on": {"LOOP": {"actions": step + [A.choose([{"guard": "lt", "actions": [A.raise_("LOOP")]}])]}},
+        }
+    elif kind == "raise_same":
+        # the chain re-raises the very SAME event object it is handling (a forwarding idiom): still one chain
+        loop = {
+            "initial": "a",
+            "entry": [A.raise_("LOOP")],
+            "states": {"a": {}},
+            "on": {"LOOP": {"actions": step + [A.choose([{"guard": "lt", "actions": [A.raise_(lambda a: a["event"])]}])]}},
         }
     elif kind in ("mixed_raise", "mixed_sendto"):
         # the self-delivery happens in the settle phase: event -> always -> entry raises event
